@@ -320,6 +320,25 @@ class Interp:
                 self.exec_block(st.finalbody, env, f)
                 raise
             self.exec_block(st.finalbody, env, f)
+        elif isinstance(st, ast.Delete):
+            for t in st.targets:
+                if isinstance(t, ast.Name):
+                    env.pop(t.id, None)
+                elif isinstance(t, ast.Subscript) and not isinstance(t.slice, ast.Slice):
+                    base = self.eval(t.value, env, f)
+                    key = self.eval(t.slice, env, f)
+                    if isinstance(base, list) and isinstance(key, int) and not isinstance(key, bool):
+                        if not (-len(base) <= key < len(base)):
+                            raise _Raise("IndexError")
+                        del base[key]
+                    elif isinstance(base, dict) and isinstance(key, (str, int)):
+                        if key not in base:
+                            raise _Raise("KeyError")
+                        del base[key]
+                    else:
+                        raise Unsupported("del %s[%r]" % (norm(t.value), key))
+                else:
+                    raise Unsupported("del %s" % norm(t))
         elif isinstance(st, ast.AugAssign):
             cur = self.eval(st.target, env, f)
             v = self.eval(st.value, env, f)
@@ -375,7 +394,8 @@ class Interp:
         if isinstance(v, (str, int, float, tuple, list, dict, set)):
             return bool(v)
         if isinstance(v, Obj) and "__bool__" in v.attrs:
-            return v.attrs["__bool__"]
+            b = v.attrs["__bool__"]
+            return b() if callable(b) else b
         if isinstance(v, (Obj, Record, Sized)):
             return True
         if isinstance(v, (Val, Sym)):
@@ -625,6 +645,15 @@ class Interp:
                 return a + b
             if isinstance(e.op, ast.BitOr) and ((isinstance(a, set) and isinstance(b, set)) or (isinstance(a, dict) and isinstance(b, dict))):
                 return a | b
+            if all(isinstance(x, int) and not isinstance(x, bool) for x in (a, b)):
+                if isinstance(e.op, ast.Add):
+                    return a + b
+                if isinstance(e.op, ast.Sub):
+                    return a - b
+                if isinstance(e.op, ast.Mult):
+                    return a * b
+                if isinstance(e.op, (ast.FloorDiv, ast.Mod)) and b != 0:
+                    return a // b if isinstance(e.op, ast.FloorDiv) else a % b
             return TOP
         if isinstance(e, ast.Starred):
             return TOP
@@ -788,6 +817,10 @@ class Interp:
             if isinstance(base, list) and m == "append" and args:
                 base.append(args[0])
                 return None
+            if isinstance(base, list) and m in ("insert", "pop", "remove", "clear", "extend", "index", "copy", "count"):
+                return self.list_method(base, m, args)
+            if isinstance(base, dict) and m in ("pop", "clear", "update", "setdefault"):
+                return self.dict_method(base, m, args, kwargs)
             if isinstance(base, list) and m == "sort":
                 keyf = kwargs.get("key")
                 if isinstance(keyf, Closure) and len(keyf.node.args.args) == 1:
@@ -817,8 +850,99 @@ class Interp:
                     return dict(base)
             if isinstance(base, str) and m == "lower":
                 return base.lower()
+            if self.strict_self_calls and isinstance(base, (list, dict, set)):
+                raise Unsupported("method %s() of an abstract %s, whose effect the interpreter does not model" % (m, type(base).__name__))
             return TOP
         return TOP
+
+    # ------------------------------------------------------------ containers of abstract elements
+    def same(self, a, b):
+        """Python's `a == b` for container searches (identity first): True / False / TOP."""
+        if a is b:
+            return True
+        r = self.compare(ast.Eq(), a, b)
+        return r
+
+    def _find(self, lst, x):
+        for i, e in enumerate(lst):
+            r = self.same(e, x)
+            if r is TOP:
+                if isinstance(e, Obj) and isinstance(x, Obj):
+                    r = False          # plain abstract objects: equality is identity
+                else:
+                    raise Unsupported("cannot decide whether %r equals %r" % (e, x))
+            if r:
+                return i
+        return None
+
+    def list_method(self, base, m, args):
+        if any(a is TOP for a in args):
+            raise Unsupported("list.%s with an unknown argument" % m)
+        if m == "insert" and len(args) == 2 and isinstance(args[0], int):
+            base.insert(args[0], args[1])
+            return None
+        if m == "pop":
+            i = args[0] if args else -1
+            if not isinstance(i, int) or isinstance(i, bool):
+                raise _Raise("TypeError")
+            if not base or not (-len(base) <= i < len(base)):
+                raise _Raise("IndexError")
+            return base.pop(i)
+        if m in ("remove", "index") and len(args) == 1:
+            i = self._find(base, args[0])
+            if i is None:
+                raise _Raise("ValueError")
+            if m == "index":
+                return i
+            del base[i]
+            return None
+        if m == "count" and len(args) == 1:
+            n = 0
+            rest = list(base)
+            while True:
+                i = self._find(rest, args[0])
+                if i is None:
+                    return n
+                n += 1
+                rest = rest[i + 1:]
+        if m == "clear" and not args:
+            del base[:]
+            return None
+        if m == "extend" and len(args) == 1 and isinstance(args[0], (list, tuple)):
+            base.extend(args[0])
+            return None
+        if m == "copy" and not args:
+            return list(base)
+        raise Unsupported("list.%s%r" % (m, tuple(args)))
+
+    def dict_method(self, base, m, args, kwargs):
+        if any(a is TOP for a in args):
+            raise Unsupported("dict.%s with an unknown argument" % m)
+        if m == "pop" and args:
+            k = args[0]
+            if not isinstance(k, (str, int)):
+                raise Unsupported("dict.pop with a non-constant key %r" % (k,))
+            if k in base:
+                return base.pop(k)
+            if len(args) > 1:
+                return args[1]
+            raise _Raise("KeyError")
+        if m == "clear" and not args:
+            base.clear()
+            return None
+        if m == "update":
+            for a in args:
+                if isinstance(a, dict):
+                    base.update(a)
+                elif isinstance(a, (list, tuple)) and all(isinstance(x, (list, tuple)) and len(x) == 2 and isinstance(x[0], (str, int)) for x in a):
+                    base.update((x[0], x[1]) for x in a)
+                else:
+                    raise Unsupported("dict.update(%r)" % (a,))
+            base.update(kwargs)
+            return None
+        if m == "setdefault" and args and isinstance(args[0], (str, int)):
+            return base.setdefault(args[0], args[1] if len(args) > 1 else None)
+        raise Unsupported("dict.%s%r" % (m, tuple(args)))
 
     def invoke(self, tgt: Func, args, kwargs, self_val):
         a = tgt.node.args
